@@ -4,6 +4,7 @@ import (
 	"fmt"
 	"go/token"
 	"go/types"
+	"strings"
 
 	"golang.org/x/tools/go/ssa"
 )
@@ -305,4 +306,81 @@ func loopVarAddrEscapes(w *World, fn *ssa.Function) []string {
 		}
 	}
 	return out
+}
+
+// ruleLoopsTotal applies LOOP-TOTAL to every natural loop of the given functions: one obligation per loop,
+// keyed by function and ranged subject; exceptions (search loops etc.) are frozen per key with a reason.
+func ruleLoopsTotal(w *World, r *Report, rule string, fns []*ssa.Function, exceptions map[string]string, consequence string) int {
+	n := 0
+	for _, fn := range fns {
+		if fn == nil {
+			continue
+		}
+		for _, f := range withAnons(fn) {
+			loops := naturalLoops(f)
+			bad := map[*ssa.BasicBlock]loopExit{}
+			for _, ex := range earlyExits(f) {
+				if !ex.errExit {
+					bad[ex.loop.header] = ex
+				}
+			}
+			seen := map[string]int{}
+			for _, li := range loops {
+				base := w.fname(origin(f)) + ": " + li.what
+				seen[base]++
+				construct := base
+				if seen[base] > 1 {
+					construct = fmt.Sprintf("%s #%d", base, seen[base])
+				}
+				if loopIsUnconditional(li) {
+					// `for { … }`: there is no exhaustion test in the header; how it ends (EOF, nothing running any more)
+					// is decided by the rules that know the loop's protocol
+					r.Info(rule, construct, li.pos, "unconditional loop: its exit protocol is decided by other rules")
+					continue
+				}
+				n++
+				ex, isBad := bad[li.header]
+				if !isBad {
+					r.OK(rule, construct, li.pos, "left only when exhausted or with an error")
+					continue
+				}
+				if reason, ok := exceptions[base]; ok {
+					r.Except(rule, construct, exitPos(ex), reason)
+					continue
+				}
+				r.Fail(rule, construct, exitPos(ex), "the loop can be left early without an error (break / return / jump past it): the remaining elements are not processed — "+consequence)
+			}
+		}
+	}
+	return n
+}
+
+func exitPos(ex loopExit) token.Pos {
+	if p := blockPos(ex.from); p != token.NoPos {
+		return p
+	}
+	return ex.loop.pos
+}
+
+// loopIsUnconditional: the header block does work (calls other than len/cap, stores, sends) before it branches:
+// a `for { x := next(); if done {break} … }` loop rather than a range / `for cond` loop.
+func loopIsUnconditional(li loopInfo) bool {
+	for _, in := range li.header.Instrs {
+		switch x := in.(type) {
+		case *ssa.Next:
+			return false
+		case *ssa.Call:
+			if b, ok := x.Call.Value.(*ssa.Builtin); ok && (b.Name() == "len" || b.Name() == "cap") {
+				continue
+			}
+			if strings.HasPrefix(calleeFullName(x), "(reflect.") || strings.HasPrefix(calleeFullName(x), "(*reflect.MapIter).Next") || strings.HasPrefix(calleeFullName(x), "(*container/list") {
+				continue // pure accessors used in loop conditions: v.Len(), t.Kind(), l.Len()
+			}
+			return true
+		case *ssa.Store, *ssa.Send, *ssa.MapUpdate, *ssa.Go, *ssa.Defer:
+			return true
+		}
+	}
+	_, endsInIf := li.header.Instrs[len(li.header.Instrs)-1].(*ssa.If)
+	return !endsInIf
 }
